@@ -4,6 +4,7 @@
 import SuironVerif.Lemmas.Exhausted
 import SuironVerif.Lemmas.EngineRefine
 import SuironVerif.Lemmas.MachineDet
+import SuironVerif.Lemmas.GroupMachineProps
 namespace Suiron.C03
 
 /-- the first request on a fresh `not` node asks G's node exactly once; `not` succeeds with the
@@ -94,6 +95,91 @@ theorem C03_iff (fo : FloatOps) (kb : KB)
     (st.sol = some σ ↔ ∃ c o, Spec.PSteps fo kb ⟨[.goals [G] σ], g0.counter, g0.out⟩ ⟨[], c, o⟩) ∧
     (st.sol = none ↔ ∃ σ' S c o, Spec.PSteps fo kb ⟨[.goals [G] σ], g0.counter, g0.out⟩ ⟨.goals [] σ' :: S, c, o⟩) := by
   obtain ⟨h0, h1, h2⟩ := C03_reference fo kb hkb G gs hp σ g0 g1 hg N hmk f st hst
+  constructor
+  · constructor
+    · intro hs; exact ⟨_, _, h1 hs⟩
+    · rintro ⟨c, o, hrun⟩
+      rcases h0 with h0 | h0
+      · exact h0
+      · obtain ⟨σ', S, hrun'⟩ := h2 h0
+        have := hrun.det hrun' (Or.inl rfl) (Or.inr ⟨_, _, rfl⟩)
+        cases this
+  · constructor
+    · intro hs; obtain ⟨σ', S, hrun⟩ := h2 hs; exact ⟨σ', S, _, _, hrun⟩
+    · rintro ⟨σ', S, c, o, hrun⟩
+      rcases h0 with h0 | h0
+      · have hrun' := h1 h0
+        have := hrun.det hrun' (Or.inr ⟨_, _, rfl⟩) (Or.inl rfl)
+        cases this
+      · exact h0
+
+/-! ## the same against the machine with cut, groups, negation and timing: knowledge bases whose clauses cut -/
+
+/-- "G has no answer" for every G of the full fragment in which no `!` is written (conjunctions, disjunctions, nested
+    negations, `time`, calls of predicates whose clauses may cut), over every knowledge base of the full fragment:
+    asked once, G's node reports none exactly as the reference search for G runs to the empty stack, and reports σ'
+    exactly as that search shows σ' as its first answer. -/
+theorem inner_search_is_reference_with_cut (fo : FloatOps) (kb : KB)
+    (hkb : ∀ key rs, kb.get key = some rs → ∀ r ∈ rs, r.body.isNil = true ∨ Spec.Grp.okG r.body = true)
+    (G : Goal) (hp : Spec.Grp.okG G = true) (hnc : Spec.Grp.ncG G = true) (σ : Subst) (g0 g1 : Suiron.G) (hg : Spec.GOK g0) (h : Node)
+    (hmk : mkNode fo.showF kb G σ g0 = .ok (h, g1)) (f : Nat) (r : Step) (hr : next fo kb f h g1 = .ok r) :
+    (r.sol = none → Spec.Grp.CSteps fo kb ⟨[.goals [.g G 0] σ], g0.counter, g0.out⟩ ⟨[], r.g.counter, r.g.out⟩) ∧
+    (∀ σ', r.sol = some σ' → ∃ S, Spec.Grp.CSteps fo kb ⟨[.goals [.g G 0] σ], g0.counter, g0.out⟩ ⟨.goals [] σ' :: S, r.g.counter, r.g.out⟩) := by
+  obtain ⟨hsteps, hc, ho, hg1, hokn, _⟩ := Spec.Grp.mkG_steps fo kb G σ g0 h g1 [] 0 0 [] hmk hp hg
+  have hrc := ((Spec.Grp.nc_all fo kb f).1 h g1 r hr (Spec.Grp.mkNode_nc fo.showF kb G σ g0 h g1 hmk hnc)).1
+  obtain ⟨href, _, hat, _⟩ := (Spec.Grp.next_refines_group fo kb (Spec.Grp.okKB_of_rules kb hkb) f).1 h g1 r (Spec.Grp.grpK h 0 []) 0 0 []
+    hr hokn hg1 rfl (Nat.le_refl _)
+  rw [← hc, ← ho] at hsteps
+  constructor
+  · intro hn
+    have h1 := href.1
+    rw [hn] at h1
+    have h2 := h1.1
+    rw [hrc] at h2
+    simp only [Spec.Grp.bOf, Bool.false_eq_true, if_false] at h2
+    rw [hc, ho] at hsteps h2
+    exact hsteps.trans h2
+  · intro σ' hs
+    have hd := Spec.Grp.head_done fo kb f h g1 r _ [] 0 0 [] hr rfl (Nat.le_refl _) href hat σ' hs
+    rw [hrc] at hd
+    simp only [Spec.Grp.kOf, Spec.Grp.hOf, Spec.Grp.bOf, Bool.false_eq_true, if_false] at hd
+    rw [hc, ho] at hsteps hd
+    exact ⟨_, hsteps.trans hd⟩
+
+/-- C03 against that reference: `not(G)`, asked for the first time, answers with its own unchanged substitution set
+    only if the reference search for G finitely fails, and answers none only if that search shows an answer —
+    whatever the clauses G calls do with `!`. -/
+theorem C03_reference_with_cut (fo : FloatOps) (kb : KB)
+    (hkb : ∀ key rs, kb.get key = some rs → ∀ r ∈ rs, r.body.isNil = true ∨ Spec.Grp.okG r.body = true)
+    (G : Goal) (gs : GoalList) (hp : Spec.Grp.okG G = true) (hnc : Spec.Grp.ncG G = true) (σ : Subst) (g0 g1 : Suiron.G) (hg : Spec.GOK g0) (N : Node)
+    (hmk : mkNode fo.showF kb (.not (.cons G gs)) σ g0 = .ok (N, g1)) (f : Nat) (st : Step)
+    (hst : next fo kb (f+1) N g1 = .ok st) :
+    (st.sol = some σ ∨ st.sol = none) ∧
+    (st.sol = some σ → Spec.Grp.CSteps fo kb ⟨[.goals [.g G 0] σ], g0.counter, g0.out⟩ ⟨[], st.g.counter, st.g.out⟩) ∧
+    (st.sol = none → ∃ σ' S, Spec.Grp.CSteps fo kb ⟨[.goals [.g G 0] σ], g0.counter, g0.out⟩ ⟨.goals [] σ' :: S, st.g.counter, st.g.out⟩) := by
+  simp only [mkNode] at hmk
+  obtain ⟨m, hm, hmk⟩ := Res.bind_eq_ok.mp hmk
+  cases hmk
+  rw [not_once] at hst
+  obtain ⟨r, hr, hst⟩ := Res.bind_eq_ok.mp hst
+  cases hst
+  obtain ⟨h1, h2⟩ := inner_search_is_reference_with_cut fo kb hkb G hp hnc σ g0 m.2 hg m.1 hm f r hr
+  cases hs : r.sol with
+  | none =>
+    refine ⟨Or.inl (by simp), fun _ => h1 hs, fun hn => by simp at hn⟩
+  | some σ' =>
+    obtain ⟨S, hS⟩ := h2 σ' hs
+    refine ⟨Or.inr (by simp), fun hn => by simp at hn, fun _ => ⟨σ', S, hS⟩⟩
+
+/-- and as an equivalence (that machine is deterministic too) -/
+theorem C03_iff_with_cut (fo : FloatOps) (kb : KB)
+    (hkb : ∀ key rs, kb.get key = some rs → ∀ r ∈ rs, r.body.isNil = true ∨ Spec.Grp.okG r.body = true)
+    (G : Goal) (gs : GoalList) (hp : Spec.Grp.okG G = true) (hnc : Spec.Grp.ncG G = true) (σ : Subst) (g0 g1 : Suiron.G) (hg : Spec.GOK g0) (N : Node)
+    (hmk : mkNode fo.showF kb (.not (.cons G gs)) σ g0 = .ok (N, g1)) (f : Nat) (st : Step)
+    (hst : next fo kb (f+1) N g1 = .ok st) :
+    (st.sol = some σ ↔ ∃ c o, Spec.Grp.CSteps fo kb ⟨[.goals [.g G 0] σ], g0.counter, g0.out⟩ ⟨[], c, o⟩) ∧
+    (st.sol = none ↔ ∃ σ' S c o, Spec.Grp.CSteps fo kb ⟨[.goals [.g G 0] σ], g0.counter, g0.out⟩ ⟨.goals [] σ' :: S, c, o⟩) := by
+  obtain ⟨h0, h1, h2⟩ := C03_reference_with_cut fo kb hkb G gs hp hnc σ g0 g1 hg N hmk f st hst
   constructor
   · constructor
     · intro hs; exact ⟨_, _, h1 hs⟩
